@@ -105,6 +105,7 @@ fn c14_decimal_literal() {
         Err(()) => {}
     }
     kani::cover!(t == 727, "i128::MAX itself");
+    #[cfg(not(verif_kf_literal_overflow))]
     kani::cover!(t == 728, "i128::MAX + 1");
 }
 
